@@ -90,6 +90,19 @@ fn reader_counters_lim(o: &mut Out, name: &str, bytes: &[u8], sc: &[usize], path
                     }
                 }
             }
+            3 => {
+                // a caller that carries on after errors: frame calls past the last frame present, then the frame-skipping call, then finish
+                let mut log = vec![];
+                for _ in 0..8 {
+                    let (r, px) = do_next_frame(&mut rd, 0);
+                    if let Some(p) = px { produced += p.len() as u64; }
+                    log.push(r.chars().take(28).collect::<String>());
+                }
+                log.push(match rd.next_frame_info() { Ok(_) => "info-ok".to_string(), Err(e) => res_err(&e) });
+                log.push(match rd.finish() { Ok(()) => "finish-ok".to_string(), Err(e) => res_err(&e) });
+                log.push(match rd.finish() { Ok(()) => "finish-ok".to_string(), Err(e) => res_err(&e) });
+                log.join(",")
+            }
             _ => match rd.finish() {
                 Ok(()) => "finish-ok".into(),
                 Err(e) => res_err(&e),
@@ -174,6 +187,27 @@ pub fn run(a: &Args) {
             let (l, m) = if rng.chance(1, 2) { mutate_structural(&b.bytes, &mut rng) } else { mutate_bytes(&b.bytes, &mut rng) };
             files.push((format!("{}~{}", b.name, l), m));
         }
+    }
+    // animations whose acTL announces more frames than the file holds, with bytes behind IEND: the calls a caller makes after the
+    // "no more image data" error (more frame calls, the skipping call, finish) must all return - the decoder is at its end, the reader
+    // keeps offering the same trailing bytes
+    for k in 0..(if thorough { 60 } else { 12 }) {
+        use crate::pngbuild::*;
+        let b = valid_file(&mut rng, &GenOpts { maxw: 6, maxh: 5, anc: k % 2 == 0, animated: Some(true) });
+        let mut chunks = parse(&b.bytes).unwrap();
+        if let Some(i) = chunks.iter().position(|c| &c.ty == b"acTL") {
+            let n = u32::from_be_bytes([chunks[i].data[0], chunks[i].data[1], chunks[i].data[2], chunks[i].data[3]]) + 1 + (k % 3) as u32;
+            chunks[i].data[..4].copy_from_slice(&n.to_be_bytes());
+            chunks[i].crc = None;
+        }
+        let mut bytes = assemble(&chunks);
+        let trailing = rng.range(1, 40) as usize;
+        bytes.extend(rng.bytes(trailing));
+        let name = format!("{}+more-frames-announced+{}-trailing-bytes", b.name, trailing);
+        for sc in [vec![0usize], vec![1], vec![rng.range(2, 64) as usize]] {
+            reader_counters(&mut o, &name, &bytes, &sc, 3);
+        }
+        o.count("files.more-frames-announced-and-trailing-bytes");
     }
     // chunk bodies crossing the 32 KiB chunk buffer (PartialChunk / reserve path), zero-length chunks
     for &n in &[0usize, 1, 32767, 32768, 32769, 70000] {
